@@ -24,7 +24,13 @@ def parse_jaqal_output_list(circuit, output):
     try:
         circuit = expand_macros(fill_in_let(expand_subcircuits(circuit)))
         visitor = DiscoverSubcircuits()
-        w = OutputParser(visitor.visit(circuit), output)
+        traces = visitor.visit(circuit)
+        try:
+            w = OutputParser(traces, output)
+        except (MemoryError, ValueError, OverflowError):
+            raise JaqalError(
+                "The frequency tables for this register do not fit in memory"
+            ) from None
         w.visit(circuit)
     except RecursionError:
         # The passes and walkers recurse over the nesting of blocks
